@@ -121,10 +121,33 @@ func runC10(c *Ctx) {
 			if cal == nil {
 				continue
 			}
+			// bounded walks in the candidate itself, or in a helper it hands the map to (the map then is the
+			// helper's parameter and is translated back to the candidate's argument)
+			type bw struct{ m *Term }
+			var walks []bw
 			for _, w := range findLinkWalks(cal, queueLinkFields) {
-				if !walkIsBounded(w) {
+				if walkIsBounded(w) {
+					walks = append(walks, bw{w.Map})
+				}
+			}
+			for _, hin := range instrsIn(cal, func(x ssa.Instruction) bool { _, ok := x.(ssa.CallInstruction); return ok }) {
+				helper := calleeOf(hin.(ssa.CallInstruction))
+				if helper == nil || len(helper.Blocks) == 0 || !hasModPrefix(helper) || sameFunc(helper, cal) {
 					continue
 				}
+				for _, w := range findLinkWalks(helper, queueLinkFields) {
+					if !walkIsBounded(w) {
+						continue
+					}
+					if idx := w.Map.paramIndex(); idx >= 0 {
+						args := hin.(ssa.CallInstruction).Common().Args
+						if idx < len(args) {
+							walks = append(walks, bw{termOf(args[idx])})
+						}
+					}
+				}
+			}
+			for _, w := range walks {
 				// deletes from the same map parameter
 				for _, d := range instrsIn(cal, func(x ssa.Instruction) bool {
 					cc, ok := x.(ssa.CallInstruction)
@@ -134,7 +157,7 @@ func runC10(c *Ctx) {
 					bi, ok := cc.Common().Value.(*ssa.Builtin)
 					return ok && bi.Name() == "delete"
 				}) {
-					if canon(termOf(d.(ssa.CallInstruction).Common().Args[0])) == canon(w.Map) {
+					if canon(termOf(d.(ssa.CallInstruction).Common().Args[0])) == canon(w.m) {
 						okSan, sanFn = true, cal
 					}
 				}
@@ -307,6 +330,13 @@ func runC10(c *Ctx) {
 			key := funcKey(rootFunc(fn)) + "|" + m
 			why, ok := justified[key]
 			used[key] = true
+			if !ok {
+				// a helper of reviewed functions inherits their invariant: the map is the helper's parameter and at
+				// every call site the argument is a map the caller is reviewed for
+				if w, inherited := inheritedJustification(p, rootFunc(fn), ss[0].Lookup.X, justified, used, 2); inherited {
+					why, ok = "helper of reviewed callers: "+w, true
+				}
+			}
 			var where []string
 			for _, s := range ss {
 				where = append(where, p.Pos(instrPos(s.Deref))+" ("+s.How+")")
@@ -442,4 +472,39 @@ func reachesField(p *Prog, fn *ssa.Function, field string, depth int) bool {
 		fa, ok := in.(*ssa.FieldAddr)
 		return ok && fieldOfAddr(fa).Name() == field
 	}, depth, map[*ssa.Function]bool{})
+}
+
+// inheritedJustification: the looked-up map is a parameter of helper fn, and every (non-test) call site of fn
+// passes a map for which the calling function is listed in the table (or inherits in turn).
+func inheritedJustification(p *Prog, fn *ssa.Function, mapVal ssa.Value, table map[string]string, used map[string]bool, depth int) (string, bool) {
+	prm, ok := stripConv(mapVal).(*ssa.Parameter)
+	if !ok || depth == 0 || prm.Parent() != fn {
+		return "", false
+	}
+	idx := paramIndexOf(prm)
+	n := 0
+	why := ""
+	for _, cs := range p.CallSites(fn) {
+		caller := rootFunc(cs.Parent())
+		if isTestdataOrMock(caller) {
+			continue
+		}
+		args := cs.Common().Args
+		if cs.Common().IsInvoke() || idx >= len(args) {
+			return "", false
+		}
+		n++
+		key := funcKey(caller) + "|" + canon(termOf(args[idx]))
+		if w, ok := table[key]; ok {
+			used[key] = true
+			why = w
+			continue
+		}
+		if w, ok := inheritedJustification(p, caller, args[idx], table, used, depth-1); ok {
+			why = w
+			continue
+		}
+		return "", false
+	}
+	return why, n > 0
 }
